@@ -185,6 +185,32 @@ def r_set_equiv_assert(F, V):
 
 # --------------------------------------------------------------------- R-EQ-LEN
 
+def _result_defs(b, local=0, _seen=None):
+    """[(kind, block)] for every definition reaching the return place: 'true'/'false' constants, 'call', or a description."""
+    _seen = _seen if _seen is not None else set()
+    if local in _seen:
+        return []
+    _seen.add(local)
+    out = []
+    for d in b.defs.get(local, ()):
+        if d[0] == "call":
+            out.append(("call", d[1]))
+            continue
+        st = d[3]
+        if st["k"] != "assign":
+            out.append(("setdiscr", d[1]))
+            continue
+        rv = st["rv"]
+        if rv["k"] == "use" and rv["op"]["k"] == "const":
+            v = str(rv["op"].get("val"))
+            out.append(("true" if v in ("1", "true") else "false" if v in ("0", "false") else "const " + v, d[1]))
+        elif rv["k"] == "use" and rv["op"]["k"] in ("copy", "move") and not rv["op"]["p"].get("proj"):
+            out.extend(_result_defs(b, rv["op"]["p"]["l"], _seen))
+        else:
+            out.append((rv["k"] + " expression", d[1]))
+    return out
+
+
 def r_eq_len(F, V):
     R = Result("R-EQ-LEN", F.cfg)
     n = 0
@@ -224,11 +250,23 @@ def r_eq_len(F, V):
                     found = True
         if not found:
             problems.append("membership in `other` is not tested through other's own lookup (%s)" % "/".join(x.split("::")[-1] for x in look))
+        # the verdict `true` can only come out of the element scan: every definition of the return value is
+        # the constant false or the scan's own result (an identity / pointer-equality shortcut answers `true`
+        # for a map holding a value with non-reflexive ==, e.g. NaN, which the element-wise definition rejects)
+        for val, blk in _result_defs(b):
+            if val == "true":
+                problems.append("eq returns `true` on a path that does not come out of the element-by-element scan (a shortcut): == must be decided by the keys and values alone")
+            elif val == "call":
+                t = b.term(blk)
+                if blk not in scan:
+                    problems.append("eq returns the result of %s instead of the element scan" % (callee_path(t) or "an indirect call"))
+            elif val not in ("false",):
+                problems.append("eq returns a value that is neither `false` nor the element scan's result (%s)" % val)
         if problems:
             R.violation(key, b, "; ".join(sorted(set(problems))))
             R.inst(key, "; ".join(sorted(set(problems))), "violation", True, where(b))
         else:
-            R.inst(key, "scan guarded by len() equality; membership via other's own hasher", "ok", True, where(b))
+            R.inst(key, "scan guarded by len() equality; membership via other's own hasher; `true` only from the scan", "ok", True, where(b))
     R.floor("PartialEq impls", n, {"posctl": 0}.get(F.cfg, 2))
     return R
 
@@ -371,6 +409,86 @@ def r_keep_key(F, V):
             R.violation("set::HashSet::%s|keeps-old" % m, b, "HashSet::%s overwrites an existing element (must keep the old one)" % m, line=line_of(b, bb=bad[0]))
         else:
             R.inst("set::HashSet::%s|keeps-old" % m, "existing element is returned untouched", "ok", True, where(b))
+    # the entry family: `insert` on an entry that turns out Occupied has the effect of HashMap::insert on a present
+    # key - only the value is replaced.  (1) the enum-level insert touches an occupied entry only through its
+    # value accessors; (2) <Occupied>::insert writes through get_mut; (3) get_mut is `&mut pair.1`.
+    VALUE_ONLY = ("insert", "get", "get_mut", "into_mut", "key", "get_key_value")
+    for ep in ("map::Entry::insert", "map::EntryRef::insert", "raw_entry::RawEntryMut::insert", "rustc_entry::RustcEntry::insert"):
+        b = F.bodies.get(ep)
+        if b is None:
+            continue
+        n += 1
+        key = ep + "|occupied-arm-value-only"
+        occ_calls = []
+        for i, t in b.calls():
+            cp = callee_path(t) or ""
+            if "Occupied" in cp.rsplit("::", 1)[0]:
+                occ_calls.append((i, cp))
+        bad = [(i, cp) for i, cp in occ_calls if cp.rsplit("::", 1)[1] not in VALUE_ONLY]
+        direct = [i for i, t in b.calls() if (callee_path(t) or "") in ("core::mem::replace", "core::mem::swap", "core::ptr::write", "raw::Bucket::write")]
+        if not occ_calls:
+            R.undec("%s: no call on the occupied entry found" % ep)
+        elif bad or direct:
+            what = bad[0][1] if bad else "a direct write"
+            R.violation(key, b, "%s on an occupied entry does more than replace the value (%s): inserting under a present key keeps the stored key, as HashMap::insert does" % (ep, what),
+                        line=line_of(b, bb=(bad[0][0] if bad else direct[0])))
+            R.inst(key, "occupied arm not value-only", "violation", True, where(b))
+        else:
+            R.inst(key, "occupied arm only calls %s" % sorted(set(cp.rsplit("::", 1)[1] for _, cp in occ_calls)), "ok", True, where(b))
+    for op_ in ("map::OccupiedEntry", "raw_entry::RawOccupiedEntryMut", "rustc_entry::RustcOccupiedEntry"):
+        b = F.bodies.get(op_ + "::insert")
+        g = F.bodies.get(op_ + "::get_mut")
+        if b is None or g is None:
+            continue
+        n += 1
+        key = op_ + "::insert|value-only"
+        probs = []
+        uses_get_mut = False
+        wr = [(i, t) for i, t in b.calls() if (callee_path(t) or "") in ("core::mem::replace", "core::mem::swap", "core::ptr::write", "core::ptr::replace")]
+        if not wr:
+            probs.append("no mem::replace of the stored value found")
+        for i, t in wr:
+            r, path = _arg_root(b, t, 0)
+            d = b.single_def(r) if r is not None else None
+            via_get_mut = bool(d and d[0] == "call" and (callee_path(d[3]) or "") == op_ + "::get_mut" and not [x for x in path if x not in ("*", "&")])
+            tl = []
+            for x in path:
+                if x.startswith("."):
+                    tl = []
+                elif x not in ("*", "&") and not x.startswith("as "):
+                    tl.append(x)
+            direct_value = ".as_mut" in path and tl == ["1"]
+            if via_get_mut:
+                uses_get_mut = True
+            elif not direct_value:
+                probs.append("the place overwritten is neither the reference returned by get_mut() nor `.1` of the stored pair")
+        for i, t in b.calls():
+            cp = callee_path(t) or ""
+            if cp.startswith(op_ + "::") and cp.rsplit("::", 1)[1] not in VALUE_ONLY:
+                probs.append("calls %s" % cp)
+        tails = []
+        for d in g.defs.get(0, ()):
+            if d[0] == "stmt" and d[3]["k"] == "assign":
+                rv = d[3]["rv"]
+                pl = rv.get("p") if rv["k"] in ("ref", "rawptr") else (rv["op"]["p"] if rv["k"] == "use" and rv["op"]["k"] in ("copy", "move") else None)
+                if pl is not None:
+                    r, path = deep_root(g, pl)
+                    tail = []
+                    for x in path:
+                        if x.startswith("."):
+                            tail = []
+                        elif x not in ("*", "&") and not x.startswith("as "):
+                            tail.append(x)
+                    tails.append(tail)
+            else:
+                tails.append(["<call>"])
+        if uses_get_mut and tails != [["1"]]:
+            probs.append("get_mut() does not return `&mut pair.1` of the stored pair (returns %s)" % tails)
+        if probs:
+            R.violation(key, b, "%s::insert must replace exactly the value of the stored pair: %s" % (op_, "; ".join(sorted(set(probs)))))
+            R.inst(key, "; ".join(sorted(set(probs))), "violation", True, where(b))
+        else:
+            R.inst(key, "insert = mem::replace(self.get_mut(), value) and get_mut = &mut pair.1", "ok", True, where(b))
     R.floor("keep-key bodies", n, {"posctl": 0}.get(F.cfg, 3))
     return R
 
